@@ -728,7 +728,7 @@ func (b *Backend) respond(w http.ResponseWriter, r *http.Request) {
 		return
 	}
 	codec := o.Codec
-	if codec != "proto" && codec != "json" {
+	if codec != "proto" && codec != "json" && codec != "jsonu" {
 		codec = "proto"
 	}
 	comp := ""
